@@ -199,4 +199,4 @@ def strategy(draw):
 
 
 def subchecks(tier):
-    return [Sub("invariance", invariance_case, strategy=strategy, n_quick=1200, n_thorough=12000, shards_quick=4)]
+    return [Sub("invariance", invariance_case, strategy=strategy, n_quick=1200, n_thorough=30000, shards_quick=4)]
